@@ -1,6 +1,6 @@
 """C12 - cumulative products: structural clauses."""
 import ast
-from ..core import RuleResult, Finding, AnalysisError, dotted, src, norm_construct
+from ..core import RuleResult, Finding, AnalysisError, dotted, src, norm_construct, guarded, guarded_list
 from ..expr import inline_straight, returns_of, dump, rv, Inliner
 from ..kinds import kind, INT_DTYPES
 from .. import paths
@@ -72,6 +72,7 @@ def _header(st):
     return ast.Tuple([], ast.Load())
 
 
+@guarded
 def rule_ki(repo, tier):
     res = RuleResult('C12.KI', 'every bound of an integer-dtype torch.arange / builtin range is of integer kind', floor=2)
     mods = [OPS] if tier == 'quick' else sorted(repo.modules)
@@ -165,6 +166,7 @@ WRAPPERS = {'cummul': ('Mult', 'cumops'), 'cummul_': ('Mult', 'cumops_'), 'cumpr
             'cumprod_': ('MatMult', 'cumops_')}
 
 
+@guarded
 def rule_role(repo, tier):
     res = RuleResult('C12.ROLE', 'left => lambda returns later o earlier (b o a), else a o b, with o = * for cummul and @ '
                      'for cumprod; cumops_ hands the earlier (index - stride) selection first and writes at index', floor=9)
@@ -250,6 +252,7 @@ def _fmt(role):
     return '%s %s %s' % (names[role[1]], sym, names[role[2]])
 
 
+@guarded
 def rule_sb(repo, tier):
     res = RuleResult('C12.SB', 'each in-place scan wrapper and its out-of-place twin pass identical operations', floor=4)
     for a, b in (('cummul', 'cummul_'), ('cumprod', 'cumprod_')):
@@ -270,6 +273,7 @@ def rule_sb(repo, tier):
 FRESH_SELECT = {'index_select', 'clone', 'gather', 'take', 'masked_select'}
 
 
+@guarded
 def rule_clone_alias(repo, tier):
     res = RuleResult('C12.CLONE', 'cumops hands a clone to cumops_; index_copy_ source is computed from copying selections', floor=2)
     f = repo.func(OPS, 'cumops')
@@ -305,6 +309,7 @@ def rule_clone_alias(repo, tier):
     return res
 
 
+@guarded
 def rule_deleg(repo, tier):
     res = RuleResult('C12.DELEG', 'LieType.cum* and LieTensor.cum* delegate to the same-named function', floor=12)
     for n in ('cumops', 'cummul', 'cumprod', 'cumops_', 'cummul_', 'cumprod_'):
@@ -337,6 +342,7 @@ def rule_deleg(repo, tier):
     return res
 
 
+@guarded
 def rule_ext(repo, tier):
     res = RuleResult('C12.EXT', 'cumops_: the number of doubling strides and the index range of every stride are derived from one and the same '
                      'extent, the size of the scanned dimension', floor=2)
@@ -365,7 +371,111 @@ def rule_ext(repo, tier):
     return res
 
 
+# storage-preserving tensor methods: the result is ALWAYS a view of the receiver (contiguous / reshape / flatten / to / clone may copy)
+MUST_VIEW = {'movedim', 'moveaxis', 'transpose', 'permute', 'view', 'view_as', 'unsqueeze', 'squeeze', 'swapaxes', 'swapdims', 'narrow', 'select',
+             'expand', 'expand_as', 'as_strided', 'unflatten', 'detach', 'tensor', 'diagonal', 'unfold', 'requires_grad_'}
+MUST_VIEW_ATTRS = {'T', 'mT', 'data', 'real'}
+
+
+def _view_root(repo, f, e, inl, depth=0):
+    """name of the parameter of f whose storage the value of e is guaranteed to share (None: may be a copy / unknown)"""
+    e = inl.value(e) if inl is not None else e
+    while True:
+        if isinstance(e, ast.Name):
+            return e.id if e.id in f.params else None
+        if isinstance(e, ast.Attribute) and e.attr in MUST_VIEW_ATTRS:
+            e = e.value
+            continue
+        if isinstance(e, ast.Subscript):
+            sl = e.slice
+            elts = sl.elts if isinstance(sl, ast.Tuple) else [sl]
+            if all(isinstance(x, ast.Slice) or (isinstance(x, ast.Constant) and (x.value is Ellipsis or x.value is None or isinstance(x.value, int)))
+                   for x in elts):
+                e = e.value
+                continue
+            return None
+        if isinstance(e, ast.Call):
+            if isinstance(e.func, ast.Attribute) and e.func.attr in MUST_VIEW:
+                e = e.func.value
+                continue
+            if isinstance(e.func, ast.Attribute) and e.func.attr.endswith('_') and not e.func.attr.startswith('_'):
+                e = e.func.value          # in-place methods return their receiver
+                continue
+            if depth < 2:
+                tg, how = repo.resolve_call(f, e, by_name=False)
+                if len(tg) == 1 and how in ('direct', 'self'):
+                    g = tg[0]
+                    rets = returns_of(g.node)
+                    roots = set()
+                    for r in rets:
+                        roots.add(_view_root(repo, g, r.value, inline_straight(g.node, upto=r), depth + 1))
+                    if len(roots) == 1 and None not in roots:
+                        pname = roots.pop()
+                        gp = g.pos_params
+                        skip = 1 if how == 'self' else 0
+                        if pname in gp:
+                            k = gp.index(pname) - skip
+                            if 0 <= k < len(e.args):
+                                e = e.args[k]
+                                continue
+                            for kw in e.keywords:
+                                if kw.arg == pname:
+                                    e = kw.value
+                                    break
+                            else:
+                                return None
+                            continue
+            return None
+        return None
+
+
+@guarded
+def rule_inplace(repo, tier):
+    res = RuleResult('C12.INPLACE', 'the in-place scans overwrite their input: the destination of every in-place write in cumops_ and the value it returns '
+                     'are guaranteed views of the `input` argument (no possibly-copying step in between), and cummul_/cumprod_ pass their own input through',
+                     floor=4)
+    g = repo.func(OPS, 'cumops_')
+    p0 = g.pos_params[0]
+    n = 0
+    envs = _StmtEnvs(g)
+    for c in paths.calls_in(g.node):
+        if isinstance(c.func, ast.Attribute) and c.func.attr.endswith('_') and not c.func.attr.startswith('_') and \
+                c.func.attr in ('index_copy_', 'copy_', 'index_put_', 'scatter_', 'index_add_', 'mul_', 'add_'):
+            recv = envs.value_at(c, c.func.value)
+            root = _view_root(repo, g, recv, None)
+            n += 1
+            res.inst({'function': g.fq, 'in-place write': src(c)[:70], 'destination shares storage with': root})
+            if root != p0:
+                res.add(Finding('C12.INPLACE', g, '`%s` writes into `%s`, which is not guaranteed to share storage with the argument `%s` (a possibly-copying '
+                                'step such as contiguous/reshape/clone lies between): the caller\'s tensor is left unchanged whenever that step copies'
+                                % (src(c)[:60], src(recv)[:60], p0), node=c))
+    if n == 0:
+        raise AnalysisError('C12.INPLACE: no in-place write found in cumops_')
+    for r in returns_of(g.node):
+        root = _view_root(repo, g, r.value, inline_straight(g.node, upto=r))
+        res.inst({'function': g.fq, 'returns': src(r.value)[:60], 'shares storage with': root})
+        if root != p0:
+            res.add(Finding('C12.INPLACE', g, 'cumops_ returns `%s`, not guaranteed to be the overwritten argument `%s`' % (src(r.value)[:60], p0), node=r))
+    for wn in ('cummul_', 'cumprod_'):
+        w = repo.func(OPS, wn)
+        for r in returns_of(w.node):
+            v = rv(w.node, r)
+            ok = isinstance(v, ast.Call) and repo.resolve_call(w, v)[0] and repo.resolve_call(w, v)[0][0].name == 'cumops_' and v.args \
+                and _view_root(repo, w, v.args[0], None) == w.pos_params[0]
+            res.inst({'function': w.fq, 'return': src(r.value)[:60], 'passes its own input': bool(ok)})
+            if not ok:
+                res.add(Finding('C12.INPLACE', w, '%s does not hand its own `%s` to cumops_ (%s)' % (wn, w.pos_params[0], src(r.value)[:60]), node=r))
+    return res
+
+
+@guarded
+def rule_memo12(repo, tier):
+    from ..memo import rule_memo
+    return rule_memo(repo, 'C12.MEMO', 'the scans are functions of their arguments: nothing computed from tensor contents is kept beyond the call, and no '
+                     'cache entry is published before it is complete', [OPS], floor=6)
+
+
 def rules(repo, tier):
     from ..stale import rule_stale
-    return [rule_ki(repo, tier), rule_role(repo, tier), rule_sb(repo, tier), rule_clone_alias(repo, tier), rule_deleg(repo, tier), rule_ext(repo, tier),
+    return [rule_ki(repo, tier), rule_role(repo, tier), rule_sb(repo, tier), rule_clone_alias(repo, tier), rule_deleg(repo, tier), rule_ext(repo, tier), rule_inplace(repo, tier), rule_memo12(repo, tier),
             rule_stale(repo, 'C12.STALE', [(OPS, 'cumops_')])]
